@@ -75,6 +75,7 @@ struct violation
     std::string note;
     bool replayed = false;
     bool confirmed = false;
+    bool ub_class = false;   // undefined behaviour at the language level: not confirmable by a concrete run
 };
 
 struct results
@@ -476,13 +477,31 @@ int run_harness(std::string const& harness_name, options const& opt, BodyS body_
             }
             trap::armed() = false;
         }
+        catch (std::exception const& ex)
+        {
+            // the real code throws where the harness does not expect it (e.g. vector::at out of range)
+            trap::armed() = false;
+            g.events.push_back(std::string("EXCEPTION:") + ex.what());
+            h.check("no_unexpected_exception", cond<real>(false));
+            finished = true;
+        }
         catch (abort_path const& ap)
         {
+            trap::armed() = false;
             if (ap.why != "other-part") ++res.abort_reasons[ap.why];
             if (ap.why == "other-part") {}
             else if (ap.why == "infeasible") ++res.aborted_infeasible;
             else if (ap.why == "unknown") ++res.aborted_unknown;
-            else if (ap.why.compare(0, 3, "ub:") == 0) ++res.aborted_ub;
+            else if (ap.why.compare(0, 3, "ub:") == 0)
+            {
+                // the real code converts a NaN / infinite / negative / huge value to an unsigned integer on
+                // this path: undefined behaviour (whatever follows is meaningless)
+                ++res.aborted_ub;
+                g.events.push_back(ap.why + (g.ub_log.empty() ? "" : (" " + g.ub_log.back())));
+                std::size_t const before = res.violations.size();
+                h.check("no_undefined_float_to_integer_conversion", cond<real>(false));
+                for (std::size_t q = before; q < res.violations.size(); ++q) res.violations[q].ub_class = true;
+            }
             else ++res.aborted_cap;
         }
         if (g.split_parts > 1 && g.split_part != 0 && g.trace.size() < g.split_depth)
@@ -526,6 +545,13 @@ int run_harness(std::string const& harness_name, options const& opt, BodyS body_
     // concrete replay of violations
     for (auto& v : res.violations)
     {
+        if (v.ub_class)
+        {
+            v.confirmed = true;
+            v.note += "UB-class: reported without concrete replay;";
+            ++res.checks[v.check].confirmed;
+            continue;
+        }
         H<SYM_NATIVE> hd;
         hd.cfg = opt.cfg;
         hd.choices = v.choices;
